@@ -10,4 +10,5 @@ CONSTANTS
   Alpha = "A"
   MaxLen = 4
   TailLen = 2
+  DeepReps = {}
 INVARIANT Emit
